@@ -281,6 +281,38 @@ def asof_prose(rng, quick):
     return ops
 
 
+def asof_daterange(rng, quick):
+    """C11 with a date range in the query: notes from 2023 and 2024, the query asks for a word inside `date:[2024-01-01 TO
+    2024-12-31]`, the cut-off (by frame / by timestamp) lies before, inside and after the range - including the case where
+    every document of the range is beyond the cut-off (the answer must then be empty, never the documents of the range).
+    The model sees the range as the atom D1 (documents of 2024 carry it); the real query is the date-range term."""
+    t23, t24 = 1685577600, 1717200000          # 2023-06-01, 2024-06-01
+    texts = [(t23, "quantum sensor calibration log for the old laboratory", True),
+             (t23 + 86400, "gardening notes about tomatoes and basil", False),
+             (t23 + 2 * 86400, "quantum entanglement reading list for the seminar", True),
+             (t24, "quantum sensor upgrade plan for the new laboratory", True),
+             (t24 + 86400, "quantum budget review with the finance group", True),
+             (t24 + 2 * 86400, "cafeteria menu for the spring term", False),
+             (t24 - 400 * 86400, "quantum archive note that was filed late", True)]      # back-dated: 2023 by timestamp, newest by frame
+    ops = [{"op": "create"}]
+    for i, (ts, t, q) in enumerate(texts):
+        in24 = 1704067200 <= ts <= 1735603200
+        ops.append({"op": "put", "uri": "mv2://d/%d" % i, "pay": i + 1, "cls": "raw", "text": t, "ts": ts,
+                    "atoms": (["w9"] if q else ["w1"]) + (["D1"] if in24 else [])})
+    ops.append({"op": "commit"})
+    q24 = "date:[2024-01-01 TO 2024-12-31] AND quantum"
+    q23 = "date:[2023-01-01 TO 2023-12-31] AND quantum"
+    qs = []
+    for ns in (False, True):
+        qs.append({"op": "search", "toks": ["D1", "AND", "w9"], "q": q24, "top_k": 10, "no_sketch": ns})
+        for cut in (0, 1, 2, 3, 4, 6):
+            qs.append({"op": "search", "toks": ["D1", "AND", "w9"], "q": q24, "top_k": 10, "as_of_frame": cut, "with_base": True, "no_sketch": ns})
+        for t in (t23, t23 + 3 * 86400, t24 - 1, t24, t24 + 86400 + 5, t24 + 10 * 86400):
+            qs.append({"op": "search", "toks": ["D1", "AND", "w9"], "q": q24, "top_k": 10, "as_of_ts": t, "with_base": True, "no_sketch": ns})
+    ops += qs + [{"op": "close"}, {"op": "open_ro"}] + [dict(q) for q in qs] + [{"op": "close"}, {"op": "open"}] + [dict(q) for q in qs[:8]] + [{"op": "close"}]
+    return ops
+
+
 def presize_scenario(rng, quick):
     """C28 / C40: the log region grows (batch pre-sizing, an oversized pending put) while nothing rewrites the indexes; the
     committed documents must still be found by a reopened handle and by a read-only one."""
@@ -319,6 +351,26 @@ def pagination_small(rng, quick):
         for w in (0, 1):
             qs.append({"op": "search", "toks": ["w%d" % w], "top_k": tk, "paged": True, "no_sketch": rng.random() < 0.5})
     ops += qs + [{"op": "close"}, {"op": "open"}] + [dict(q) for q in qs[:6]] + [{"op": "close"}]
+    return ops
+
+
+def pagination_ties(rng, quick, tied, distinct):
+    """C16 with exact score ties: `tied` one-sentence notes of identical shape (same length, same term frequency, one
+    timestamp) plus `distinct` longer ones, all matching one word; fewer than 20 matching documents, one slice each, so
+    nothing as built excuses a difference.  Every page size from 1 to 10 against the one-request answer."""
+    ops = [{"op": "create"}]
+    for i in range(tied):
+        ops.append({"op": "put", "uri": "mv2://tie/%d" % i, "pay": i + 1, "cls": "raw", "ts": 1700000000,
+                    "text": "status note %s zeppelin hangar nominal today" % ("abcdefghijklmnopqrstuvwxyz"[i % 26] * 5), "atoms": ["w9"]})
+    for j in range(distinct):
+        ops.append({"op": "put", "uri": "mv2://tie/x%d" % j, "pay": 100 + j, "cls": "raw", "ts": 1700000000,
+                    "text": "longer report %d about the zeppelin %s and nothing else of interest" % (j, " ".join(["filler%d" % k for k in range(3 * (j + 1))])),
+                    "atoms": ["w9"]})
+    ops.append({"op": "commit"})
+    qs = []
+    for tk in range(1, 11):
+        qs.append({"op": "search", "toks": ["w9"], "q": "zeppelin", "top_k": tk, "paged": True, "no_sketch": tk % 2 == 0})
+    ops += qs + [{"op": "close"}, {"op": "open_ro"}] + [dict(q) for q in qs] + [{"op": "close"}]
     return ops
 
 
@@ -376,6 +428,10 @@ def engine(tier):
     scs.append({"id": 4, "ops": asof_scenario(rng, quick)})
     scs.append({"id": 5, "ops": asof_prose(rng, quick)})
     scs.append({"id": 6, "ops": presize_scenario(rng, quick)})
+    scs.append({"id": 7, "ops": asof_daterange(rng, quick)})
+    scs.append({"id": 8, "ops": pagination_ties(rng, quick, 14, 4)})
+    scs.append({"id": 9, "ops": pagination_ties(rng, quick, 4, 0)})
+    scs.append({"id": 10, "ops": pagination_ties(rng, quick, 5, 2)})
     sizes = [6, 14, 30] if quick else [4, 8, 14, 24, 40, 60, 90, 120] * 3
     for n in sizes:
         scs.append({"id": len(scs) + 1, "ops": scenario(rng, quick, n)})
